@@ -40,7 +40,7 @@ def handle (j : J) : Except String J := do
   if op = "calc" then
     let adj ← (← j.array "adj").mapM linkOfJ
     let order ← j.nats "order"
-    match calcTree adj order with
+    match calcTreeL adj order with
     | .error e => pure (J.mk [("exc", J.str e)])
     | .ok t => pure (J.mk [("tree", J.arr (t.map fun e => J.ofNats [e.v, e.pv, e.w, e.pw])),
                            ("keys", J.ofNats (treeKeys t))])
